@@ -34,9 +34,10 @@ const (
 	bfdAlive = iota
 	bfdSilent
 	bfdSayDown
+	bfdSayAdminDown
 )
 
-var bfdModeName = []string{"alive", "silent", "saydown"}
+var bfdModeName = []string{"alive", "silent", "saydown", "sayadmindown"}
 
 // bfdLink is one BFD session of one router and the scripted remote end.
 type bfdLink struct {
@@ -169,9 +170,11 @@ func bfdLinksCampaign(r *core.Run) {
 				continue
 			case bfdSayDown:
 				st = layers.BFDStateDown
+			case bfdSayAdminDown:
+				st = layers.BFDStateAdminDown
 			default:
 				st = layers.BFDStateInit
-				if b.sess.IsUp() {
+				if b.sess.VerifLocalState() == layers.BFDStateUp {
 					st = layers.BFDStateUp
 				}
 			}
@@ -213,7 +216,8 @@ func bfdLinksCampaign(r *core.Run) {
 			r.Probe("c15-configured-bfd-without-session")
 			return true
 		}
-		return s.IsUp()
+		// the session's *state* (hook H3), not its IsUp(): what IsUp answers is part of what is judged
+		return s.VerifLocalState() == layers.BFDStateUp
 	}
 
 	var cur *Flow
@@ -235,7 +239,7 @@ func bfdLinksCampaign(r *core.Run) {
 			}
 			if rec.Res.SlowPath {
 				// an SCMP reply leaves over the link the offender came in by
-				if s := l.BFDSession(); s != nil && !s.IsUp() {
+				if s := l.BFDSession(); s != nil && s.VerifLocalState() != layers.BFDStateUp {
 					r.Probe("c15-scmp-reply-over-down-ingress-link")
 				}
 			} else if !up(rt, l, eg) {
@@ -324,7 +328,7 @@ func bfdLinksCampaign(r *core.Run) {
 				continue
 			}
 			b := links[r.Choice("bfd.link", len(links))]
-			b.mode = r.Choice("bfd.mode", 3)
+			b.mode = r.Choice("bfd.mode", 4)
 			r.Fault("bfd." + bfdModeName[b.mode])
 			r.Logf("peer of %s now %s (session %v)", b.name, bfdModeName[b.mode], b.sess.VerifLocalState())
 		}
